@@ -147,24 +147,29 @@ def _specs():
 
 
 def _add_colr(font, version):
-    """COLR: base glyph 'a' -> layers (x1, x2); v1 adds 'b' = PaintColrGlyph(a) + PaintGlyph(x3)."""
+    """COLR v0: a -> layers (x1, x2), d -> (x2); v1: a = layers of PaintGlyph x1, x2; b = PaintColrGlyph(a) + PaintGlyph(x3); c = PaintGlyph x1; d stays a v0 record."""
     from fontTools.colorLib import builder
 
-    v0 = {"a": [("x1", 0), ("x2", 2)], "d": [("x2", 1)]}
     if version == 0:
-        font["COLR"] = builder.buildCOLR(v0, version=0)
+        font["COLR"] = builder.buildCOLR({"a": [("x1", 0), ("x2", 2)], "d": [("x2", 1)]}, version=0)
     else:
         from fontTools.ttLib.tables.otTables import PaintFormat
 
-        v1 = {
+        def solid(i, alpha=1.0):
+            return {"Format": PaintFormat.PaintSolid, "PaletteIndex": i, "Alpha": alpha}
+
+        colors = {
+            "a": (PaintFormat.PaintColrLayers, [
+                {"Format": PaintFormat.PaintGlyph, "Paint": solid(0), "Glyph": "x1"},
+                {"Format": PaintFormat.PaintGlyph, "Paint": solid(2), "Glyph": "x2"},
+            ]),
             "b": (PaintFormat.PaintColrLayers, [
                 {"Format": PaintFormat.PaintColrGlyph, "Glyph": "a"},
-                {"Format": PaintFormat.PaintGlyph, "Paint": {"Format": PaintFormat.PaintSolid, "PaletteIndex": 3, "Alpha": 1.0}, "Glyph": "x3"},
+                {"Format": PaintFormat.PaintGlyph, "Paint": solid(3), "Glyph": "x3"},
             ]),
-            "c": {"Format": PaintFormat.PaintGlyph, "Paint": {"Format": PaintFormat.PaintSolid, "PaletteIndex": 1, "Alpha": 0.5}, "Glyph": "x1"},
+            "c": {"Format": PaintFormat.PaintGlyph, "Paint": solid(1, 0.5), "Glyph": "x1"},
+            "d": [("x2", 1)],
         }
-        colors = dict(v0)
-        colors.update(v1)
         font["COLR"] = builder.buildCOLR(colors, version=None, glyphMap=font.getReverseGlyphMap())
     font["CPAL"] = builder.buildCPAL([[(1, 0, 0, 1), (0, 1, 0, 1), (0, 0, 1, 1), (1, 1, 0, 1)]])
 
